@@ -127,7 +127,10 @@ class Scenario:
          gen:    deco (overrides visit_ID / visit_Constant / visit_BinaryOp),
                  ownvisit (overrides visit() itself), rpsub (subclass with
                  reduce_parentheses=True); default: plain CGenerator
-         parse:  loud (CParser subclass overriding the error hook)
+                 reentrant (delegates sub-nodes to brand-new CGenerators)
+         parse:  loud (CParser subclass overriding the error hook),
+                 oldtok (stock CParser with a custom lexer class whose tokens
+                 carry no file name)
        kind 'gen'     key in GEN_SRC, granularity 'visit' | 'call'
        kind 'visitor' key in VIS_SRC, granularity 'call'
        kind 'leaky-parse': harness-made interference (positive control)"""
@@ -161,6 +164,20 @@ class Scenario:
         pristine.touch("C13 task")
         return self._job(n)
 
+    def reference_job(self, n):
+        """The re-entrant generator subclass must print what a plain CGenerator
+        prints (it only delegates sub-nodes to brand-new instances): its
+        reference is the plain class on the same AST, not itself - a defect of
+        nested same-thread use would be in its own solo run as well."""
+        if self.tasks[n][0] == "gen" and self.cls[n] == "reentrant":
+            saved = self.cls[n]
+            self.cls[n] = ""
+            try:
+                return self.job(n)
+            finally:
+                self.cls[n] = saved
+        return None
+
     def _job(self, n):
         from pycparser import c_ast
         from pycparser.c_parser import CParser
@@ -169,7 +186,23 @@ class Scenario:
 
         kind, key, gran = self.tasks[n]
         ast = self._ast(n) if kind in ("gen", "visitor") else None
-        if kind == "parse" and gran == "token":
+        if kind == "parse" and gran == "token" and self.cls[n] == "oldtok":
+            # a custom lexer class written against the older Token: its tokens
+            # leave the optional `filename` field at None
+            fn, text = PROGS[key]
+            from pycparser.c_lexer import Token
+
+            def job(point):
+                base = sched.token_lexer(point)
+
+                class OldTokenLexer(base):
+                    def token(self):
+                        t = super().token()
+                        return None if t is None else Token(t.type, t.value, t.lineno, t.column)
+
+                return _canon_raw(_raw_parse(lambda: CParser(lexer=OldTokenLexer), text, fn))
+
+        elif kind == "parse" and gran == "token":
             fn, text = PROGS[key]
             PC = parser_class(self.cls[n])
 
@@ -344,6 +377,13 @@ def plan(tier):
         (_ref("plain CGenerator | subclass overriding visit() @visit", "gen:mix0:visit", "gen:mix1:visit:ownvisit"), bt),
         (_ref("plain CGenerator | subclass with reduce_parentheses=True @visit", "gen:mix0:visit", "gen:mix1:visit:rpsub"), bt),
         (_ref("3 generator classes: visit_X overrides | visit() override | plain @visit", "gen:mini0:visit:deco", "gen:mini1:visit:ownvisit", "gen:mini2:visit"), bt),
+        (_ref("plain CGenerator | re-entrant subclass (nested brand-new generators) @visit", "gen:mix0:visit", "gen:mix1:visit:reentrant"), bt),
+        (_ref("re-entrant subclass on nested compounds | plain @visit", "gen:deep:visit:reentrant", "gen:flat:visit"), bt),
+        # two lexer CLASSES through lexer=: the stock one and one whose tokens
+        # carry no file name, on programs with #line directives
+        (_ref("stock lexer A | lexer without Token.filename B @token", "parse:A:token", "parse:B:token:oldtok"), bt),
+        (_ref("lexer without Token.filename A | stock lexer B @token", "parse:A:token:oldtok", "parse:B:token"), bt),
+        (_ref("stock lexer C | lexer without Token.filename C | stock lexer E @token", "parse:C:token", "parse:C:token:oldtok", "parse:E:token"), bt),
         (_ref("plain CParser D | CParser subclass (error hook) D | plain A @token", "parse:D:token", "parse:D:token:loud", "parse:A:token"), bt),
         (_ref("2 NodeVisitor subclasses @call", "visitor:v1:call", "visitor:v2:call"), bc),
         (_ref("2 parsers e|f (same bare #line) @call", "parse:e:call", "parse:f:call"), bc),
